@@ -1,9 +1,263 @@
 import SasLexer.Spec.Basic
-/-! # C11 — dump-level specification (STUB, being written) -/
+import SasLexer.Chars
+/-!
+# C11 — macro-free open code follows the SAS lexical grammar (dump-level specification)
+
+`refLex` is the reference open-code lexer of DESIGN.md §7.2: a left-to-right maximal-munch
+reading of the source that carries only two booleans,
+
+* `pending`  — an open-code statement has started and is not yet terminated by `;`,
+* `prevSemi` — the last DEFAULT-channel token is `SEMI`, or there is none yet,
+
+and nothing else (no mode stack, no checkpoint, no buffer).  One `step` reads the construct
+that starts at the current character and returns its *pieces* (one token each; only a
+datalines block has more than one) together with the new `pending`.  Every error of
+macro-free open code is reported at the end of the token it belongs to, so a piece carries
+the errors raised at its end.  `Spec.C11 s d` compares the `(type, channel, byte)` view of
+the dump's tokens and the `(kind, byte)` view of its errors with `refLex s`.
+-/
 namespace SasLexer
 namespace Spec
 
-def C11 (_s : List Char) (_d : Dump) : Verdict := ["unimplemented"]
+abbrev RefTok := TokenType × Channel × Nat
+abbrev RefErr := ErrorKind × Nat
+
+/-- No macro trigger: no `%` directly followed by `*` or a name start, and no `&` directly
+followed by a name start (= no maximal `&`-run followed by a name start). -/
+def macroFree (s : List Char) : Bool :=
+  (s.zip (s.drop 1)).all fun (a, b) =>
+    !(a == '%' && (b == '*' || isUnicodeNameStart b)) && !(a == '&' && isUnicodeNameStart b)
+
+namespace Ref
+
+/-- one token of the reference reading: type, channel, length in characters, and the errors
+reported at its end -/
+structure Piece where
+  ty : TokenType
+  len : Nat
+  chan : Channel := .DEFAULT
+  errs : List ErrorKind := []
+
+/-- length of the maximal prefix of `s` whose characters satisfy `p` -/
+def runLen (p : Char → Bool) (s : List Char) : Nat := (s.takeWhile p).length
+
+def digits : List Char → Nat := runLen isAsciiDigit
+
+def u64Max : Nat := 2 ^ 64 - 1
+def digitVal (c : Char) : Nat := if isAsciiDigit c then c.toNat - 48 else (toUpperAscii c).toNat - 55
+/-- the value of a digit string fits `u64` (the running value is capped just above `u64::MAX`:
+once exceeded it stays exceeded, so long digit runs cost linear time) -/
+def fitsU64 (base : Nat) (ds : List Char) : Bool :=
+  ds.foldl (fun a c => min (a * base + digitVal c) (u64Max + 1)) 0 ≤ u64Max
+
+/-! ## Quoted literals (rules 2, 3) -/
+
+/-- `r` = text after the opening quote `q`: number of characters up to and including the
+closing quote (`qq` is an escaped quote, the first lone `q` closes); `none` = not closed -/
+def closeLen (q : Char) : List Char → Option Nat
+  | [] => none
+  | c :: r =>
+    if c == q then
+      match r with
+      | c2 :: r2 => if c2 == q then (closeLen q r2).map (· + 2) else some 1
+      | [] => some 1
+    else (closeLen q r).map (· + 1)
+
+/-- literal type and suffix length decided by the character(s) right after the closing quote -/
+def literalSuffix (after : List Char) : TokenType × Nat :=
+  match (after.take 2).map toUpperAscii with
+  | 'B' :: _ => (.BitTestingLiteral, 1)
+  | 'D' :: 'T' :: _ => (.DateTimeLiteral, 2)
+  | 'D' :: _ => (.DateLiteral, 1)
+  | 'N' :: _ => (.NameLiteral, 1)
+  | 'T' :: _ => (.TimeLiteral, 1)
+  | 'X' :: _ => (.HexStringLiteral, 1)
+  | _ => (.StringLiteral, 0)
+
+/-- well-formed hex string content: pairs of hex digits, commas ignored -/
+def hexPairs (content : List Char) : Bool :=
+  let ds := content.filter (· != ',')
+  ds.all isAsciiHexDigit && ds.length % 2 == 0
+
+def quoted (q : Char) (r : List Char) : Piece :=
+  match closeLen q r with
+  | none => { ty := .StringLiteral, len := 1 + r.length, errs := [.UnterminatedStringLiteral] }
+  | some n =>
+    let (ty, sfx) := literalSuffix (r.drop n)
+    let bad := ty == .HexStringLiteral && !hexPairs (r.take (n - 1))
+    { ty, len := 1 + n + sfx, errs := if bad then [.InvalidHexStringConstant] else [] }
+
+/-! ## Comments (rules 5, 9) -/
+
+/-- number of characters up to and including the first `*/`; `none` = not closed -/
+def cstyleCloseLen : List Char → Option Nat
+  | '*' :: '/' :: _ => some 2
+  | _ :: r => (cstyleCloseLen r).map (· + 1)
+  | [] => none
+
+def cstyleComment (s : List Char) : Piece :=      -- `s` starts with `/*`
+  match cstyleCloseLen (s.drop 2) with
+  | some n => { ty := .CStyleComment, chan := .COMMENT, len := 2 + n }
+  | none => { ty := .CStyleComment, chan := .COMMENT, len := s.length, errs := [.UnterminatedComment] }
+
+def starComment (s : List Char) : Piece :=        -- through the next `;` inclusive, or to the end
+  let body := runLen (· != ';') s
+  let semi := match s.drop body with | _ :: _ => 1 | [] => 0
+  { ty := .PredictedCommentStat, chan := .COMMENT, len := body + semi }
+
+/-! ## Numeric literals (rule 7, "Numeric literal") -/
+
+/-- decimal reading `D+ | D* . D*` (≥ 1 digit) `([eE][+-]?D+)?`.  Integer iff it is `D+` and
+fits `u64`.  An exponent marker without digits: the literal ends after the marker and its
+optional sign, `InvalidNumericLiteral`. -/
+def decimal (s : List Char) : Piece :=
+  let i := digits s
+  let m := match s.drop i with | '.' :: t => i + 1 + digits t | _ => i
+  let isE := match s.drop m with | c :: _ => c == 'e' || c == 'E' | [] => false
+  if isE then
+    let t := s.drop (m + 1)
+    let sign := match t with | c :: _ => if c == '+' || c == '-' then 1 else 0 | [] => 0
+    let d := digits (t.drop sign)
+    if d > 0 then { ty := .FloatExponentLiteral, len := m + 1 + sign + d }
+    else { ty := .FloatLiteral, len := m + 1 + sign, errs := [.InvalidNumericLiteral] }
+  else if m == i && fitsU64 10 (s.take i) then { ty := .IntegerLiteral, len := i }
+  else { ty := .FloatLiteral, len := m }
+
+/-- `s` starts with a digit, or with `.` followed by a digit -/
+def numeric (s : List Char) : Piece :=
+  let dec := decimal s
+  let h := runLen isAsciiHexDigit s                 -- 0 in the seen-dot form
+  let x := match s.drop h with | c :: _ => c == 'x' || c == 'X' | [] => false
+  if h > dec.len || (h == dec.len && x) then
+    let fits := fitsU64 16 (s.take h)
+    { ty := if fits then .IntegerLiteral else .FloatLiteral
+      len := if x then h + 1 else h
+      errs := (if fits then [] else [.InvalidNumericLiteral])
+              ++ (if x then [] else [.UnterminatedHexNumericLiteral]) }
+  else dec
+
+/-! ## Words (rule 8) -/
+
+def datalinesWords : List (String × Nat) :=          -- word, length of its terminator `;`…`;`
+  [("DATALINES", 1), ("CARDS", 1), ("LINES", 1), ("DATALINES4", 4), ("CARDS4", 4), ("LINES4", 4)]
+
+/-- `(n, terminated)`: the data is the first `n` characters — up to the first `;` at which the
+terminator (`k` semicolons) stands; or up to the first `;`/end of input at which fewer than
+`k` bytes remain (unterminated) -/
+def datalinesData (k : Nat) : List Char → Nat × Bool
+  | [] => (0, false)
+  | c :: r =>
+    if c == ';' && utf8Len ((c :: r).take k) < k then (0, false)     -- fewer than `k` bytes remain
+    else if (c :: r).take k == List.replicate k ';' then (0, true)
+    else let (n, t) := datalinesData k r; (n + 1, t)
+
+/-- `s` starts with `_` or XID_Start -/
+def word (prevSemi : Bool) (s : List Char) : List Piece × Bool :=
+  let n := runLen isIdentContinue s
+  -- ASCII upper-casing; a word with a non-ASCII character or longer than every keyword is
+  -- in neither table, hence a plain identifier
+  let up := String.ofList ((s.take n).map toUpperAscii)
+  let rest := s.drop n
+  let ws := runLen isWhitespace rest
+  match TokenType.KEYWORDS.lookup up, datalinesWords.lookup up with
+  | some kw, _ => ([{ ty := kw, len := n }], true)
+  | none, some k =>
+    if prevSemi && (rest.drop ws).head? == some ';' then
+      let body := rest.drop (ws + 1)
+      let (dlen, terminated) := datalinesData k body
+      ([{ ty := .DatalinesStart, len := n + ws + 1 },
+        { ty := .DatalinesData, len := dlen, errs := if terminated then [] else [.UnterminatedDatalines] },
+        { ty := .SEMI, len := if terminated then k else runLen (· == ';') (body.drop dlen) }],
+       false)
+    else ([{ ty := .Identifier, len := n }], true)
+  | none, none => ([{ ty := .Identifier, len := n }], true)
+
+/-! ## Symbols (rules 10, 11) -/
+
+/-- `r` = text after `$`: length of `name? [0-9]* . [0-9]*` if the text matches -/
+def charFormatLen (r : List Char) : Option Nat :=
+  let name := match r with
+    | c :: t => if isUnicodeNameStart c then 1 + runLen isXidContinue t else 0
+    | [] => 0
+  let w := digits (r.drop name)
+  match r.drop (name + w) with
+  | '.' :: t => some (name + w + 1 + digits t)
+  | _ => none
+
+/-- two-character spellings first -/
+def symbolTable : List (String × TokenType) := [
+  ("!!", .EXCL2), ("¦¦", .BPIPE2), ("||", .PIPE2), ("¬=", .NE), ("^=", .NE), ("~=", .NE), ("∘=", .NE),
+  ("<=", .LE), ("<>", .LTGT), (">=", .GE), ("><", .GTLT), ("=*", .SoundsLike),
+  ("(", .LPAREN), (")", .RPAREN), ("{", .LCURLY), ("}", .RCURLY), ("[", .LBRACK), ("]", .RBRACK),
+  ("!", .EXCL), ("¦", .BPIPE), ("|", .PIPE), ("¬", .NOT), ("^", .NOT), ("~", .NOT), ("∘", .NOT),
+  ("+", .PLUS), ("-", .MINUS), ("<", .LT), (">", .GT), (".", .DOT), (",", .COMMA), (":", .COLON),
+  ("=", .ASSIGN), ("@", .AT), ("#", .HASH), ("?", .QUESTION)]
+
+/-! ## One step -/
+
+/-- the construct starting at `c :: r`: its pieces and the new `pending` -/
+def step (pending prevSemi : Bool) (c : Char) (r : List Char) : List Piece × Bool :=
+  let s := c :: r
+  let tok (ty : TokenType) (len : Nat) : List Piece × Bool := ([{ ty, len }], true)
+  if isWhitespace c then ([{ ty := .WS, chan := .HIDDEN, len := runLen isWhitespace s }], pending)
+  else if c == '\'' || c == '"' then ([quoted c r], true)
+  else if c == ';' then ([{ ty := .SEMI, len := 1 }], false)
+  else if c == '/' then
+    if r.head? == some '*' then ([cstyleComment s], pending) else tok .FSLASH 1
+  else if c == '&' then tok .AMP (runLen (· == '&') s)
+  else if c == '%' then tok .PERCENT 1
+  else if isAsciiDigit c || (c == '.' && r.head?.any isAsciiDigit) then ([numeric s], true)
+  else if isUnicodeNameStart c then word prevSemi s
+  else if c == '*' then
+    if !pending then ([starComment s], false)
+    else if r.head? == some '*' then tok .STAR2 2 else tok .STAR 1
+  else if c == '$' then
+    match charFormatLen r with
+    | some n => tok .CharFormat (1 + n)
+    | none => tok .DOLLAR 1
+  else
+    match symbolTable.find? (fun (e : String × TokenType) => e.1.toList.isPrefixOf s) with
+    | some (sp, ty) => tok ty sp.length
+    | none => ([{ ty := .CatchAll, chan := .HIDDEN, len := 1 }], true)
+
+/-! ## Driver: byte offsets, `prevSemi`, final `EOF` -/
+
+/-- lay the pieces out from byte offset `pos`: tokens, errors, remaining text, end offset -/
+def place : List Piece → List Char → Nat → List RefTok × List RefErr × List Char × Nat
+  | [], s, pos => ([], [], s, pos)
+  | p :: ps, s, pos =>
+    let e := pos + utf8Len (s.take p.len)
+    let (ts, es, s', pos') := place ps (s.drop p.len) e
+    ((p.ty, p.chan, pos) :: ts, p.errs.map (·, e) ++ es, s', pos')
+
+/-- fuel = remaining length (every step consumes at least one character) -/
+def run : Nat → List Char → Nat → Bool → Bool → List RefTok × List RefErr
+  | fuel + 1, c :: r, pos, pending, prevSemi =>
+    let (pieces, pending') := step pending prevSemi c r
+    let (ts, es, s', pos') := place pieces (c :: r) pos
+    let prevSemi' := match (pieces.filter (·.chan == .DEFAULT)).getLast? with
+      | some p => p.ty == .SEMI
+      | none => prevSemi
+    let (ts', es') := run fuel s' pos' pending' prevSemi'
+    (ts ++ ts', es ++ es')
+  | _, _, pos, _, _ => ([(.EOF, .DEFAULT, pos)], [])
+
+end Ref
+
+/-- the reference open-code lexer.  A leading BOM belongs to no token: reading starts after it. -/
+def refLex (s : List Char) : List RefTok × List RefErr :=
+  match s with
+  | c :: r => if c == BOM then Ref.run r.length r 3 false true else Ref.run s.length s 0 false true
+  | [] => Ref.run 0 [] 0 false true
+
+/-- C11: on macro-free text the tokens `(type, channel, byte)` — including the final `EOF` — and
+the errors `(kind, byte)` are those of `refLex`.  Not macro-free: the property does not apply. -/
+def C11 (s : List Char) (d : Dump) : Verdict :=
+  if macroFree s then
+    let (toks, errs) := refLex s
+    clause "tokens" (d.toks.map (fun t => (t.ty, t.chan, t.byte)) == toks)
+    ++ clause "errors" (d.errs.map (fun e => (e.kind, e.byte)) == errs)
+  else []
 
 end Spec
 end SasLexer
